@@ -164,17 +164,16 @@ pub fn same_text(got: &[u8], want: &Txt) -> bool {
 /// byte-wise lexicographic order on padded texts (this is the order of the
 /// canonical strings as well, since NUL < every subtag byte)
 pub fn txt_cmp(a: &Txt, b: &Txt) -> i8 {
-    let mut i = 0;
-    while i < 8 {
-        if a[i] < b[i] {
-            return -1;
-        }
-        if a[i] > b[i] {
-            return 1;
-        }
-        i += 1;
+    // big-endian integer order == byte-wise lexicographic order
+    let x = u64::from_be_bytes(*a);
+    let y = u64::from_be_bytes(*b);
+    if x < y {
+        -1
+    } else if x > y {
+        1
+    } else {
+        0
     }
-    0
 }
 pub fn txt_eq(a: &Txt, b: &Txt) -> bool {
     txt_cmp(a, b) == 0
@@ -223,12 +222,121 @@ pub fn insert_sorted_unique(arr: &mut [Txt; VMAX], n: &mut usize, v: Txt) {
     *n += 1;
 }
 
+/// Everything the grammar needs to know about one subtag, computed in a single
+/// fixed 9-iteration pass (cheap for the solver: no symbolic-length slices).
+#[derive(Clone, Copy)]
+pub struct Info {
+    pub n: usize,
+    pub alpha: bool,
+    pub digit: bool,
+    pub alnum: bool,
+    pub d0: bool,
+    pub a0: bool,
+    pub a1: bool,
+    pub d1: bool,
+    pub an0: bool,
+    /// lower-cased first 8 bytes, NUL padded
+    pub low: Txt,
+}
+
+pub fn info(t: &super::sym::Tok) -> Info {
+    let mut r = Info { n: t.n, alpha: true, digit: true, alnum: true, d0: false, a0: false, a1: false, d1: false, an0: false, low: NOTXT };
+    let mut j = 0;
+    while j < TMAX {
+        if j < t.n {
+            let c = t.b[j];
+            if !is_alpha(c) {
+                r.alpha = false;
+            }
+            if !is_digit(c) {
+                r.digit = false;
+            }
+            if !is_alnum(c) {
+                r.alnum = false;
+            }
+            if j < 8 {
+                r.low[j] = lower(c);
+            }
+        }
+        j += 1;
+    }
+    if t.n >= 1 {
+        r.d0 = is_digit(t.b[0]);
+        r.a0 = is_alpha(t.b[0]);
+        r.an0 = is_alnum(t.b[0]);
+    }
+    if t.n >= 2 {
+        r.a1 = is_alpha(t.b[1]);
+        r.d1 = is_digit(t.b[1]);
+    }
+    r
+}
+
+impl Info {
+    pub fn is_language(&self) -> bool {
+        ((self.n >= 2 && self.n <= 3) || (self.n >= 5 && self.n <= 8)) && self.alpha
+    }
+    pub fn is_script(&self) -> bool {
+        self.n == 4 && self.alpha
+    }
+    pub fn is_region(&self) -> bool {
+        (self.n == 2 && self.alpha) || (self.n == 3 && self.digit)
+    }
+    pub fn is_variant(&self) -> bool {
+        (self.n >= 5 && self.n <= 8 && self.alnum) || (self.n == 4 && self.d0 && self.alnum)
+    }
+    pub fn is_ukey(&self) -> bool {
+        self.n == 2 && self.an0 && self.a1
+    }
+    pub fn is_utype(&self) -> bool {
+        self.n >= 3 && self.n <= 8 && self.alnum
+    }
+    pub fn is_tkey(&self) -> bool {
+        self.n == 2 && self.a0 && self.d1
+    }
+    pub fn is_private(&self) -> bool {
+        self.n >= 1 && self.n <= 8 && self.alnum
+    }
+    pub fn lower(&self) -> Txt {
+        self.low
+    }
+    pub fn upper(&self) -> Txt {
+        let mut o = self.low;
+        let mut i = 0;
+        while i < 8 {
+            o[i] = upper(o[i]);
+            i += 1;
+        }
+        o
+    }
+    pub fn title(&self) -> Txt {
+        let mut o = self.low;
+        o[0] = upper(o[0]);
+        o
+    }
+}
+
+pub fn infos<const K: usize>(toks: &[super::sym::Tok; K]) -> [Info; K] {
+    core::array::from_fn(|i| info(&toks[i]))
+}
+
 /// Parse `toks[..k]` as  language (script)? (region)? (variant)*.
 /// `consumed` = number of tokens that belong to the language identifier when
 /// trailing material is allowed (the locale case); with `allow_ext == false`
 /// anything left over is an error.
 pub fn parse_langid<const K: usize>(
     toks: &[super::sym::Tok; K],
+    k: usize,
+    allow_ext: bool,
+) -> (Result<LangIdModel, LangIdErr>, usize) {
+    let inf = infos(toks);
+    parse_langid_info(&inf, 0, k, allow_ext)
+}
+
+/// as above on pre-computed token infos, starting at token `from`
+pub fn parse_langid_info<const K: usize>(
+    inf: &[Info; K],
+    from: usize,
     k: usize,
     allow_ext: bool,
 ) -> (Result<LangIdModel, LangIdErr>, usize) {
@@ -240,34 +348,44 @@ pub fn parse_langid<const K: usize>(
         variants: [NOTXT; VMAX],
         nvariants: 0,
     };
-    if k == 0 {
-        return (Ok(m), 0);
+    if from >= k {
+        return (Ok(m), from);
     }
-    let t0 = toks[0].bytes();
-    if !is_language(t0) {
-        return (Err(LangIdErr::InvalidLanguage), 0);
+    if !inf[from].is_language() {
+        return (Err(LangIdErr::InvalidLanguage), from);
     }
-    m.lang = lower8(t0);
+    m.lang = inf[from].lower();
     m.lang_und = txt_eq(&m.lang, &UND);
-    let mut i = 1;
-    if i < k && is_script(toks[i].bytes()) {
-        m.script = Some(title8(toks[i].bytes()));
-        i += 1;
-    }
-    if i < k && is_region(toks[i].bytes()) {
-        m.region = Some(upper8(toks[i].bytes()));
-        i += 1;
-    }
-    while i < k && is_variant(toks[i].bytes()) {
-        if m.nvariants < VMAX {
-            insert_sorted_unique(&mut m.variants, &mut m.nvariants, lower8(toks[i].bytes()));
+    // the position automaton is unrolled over the (concrete) token positions so that
+    // no array is indexed with a symbolic value
+    let mut stage = 1; // 1: script/region/variant may follow, 2: region/variant, 3: variant, 4: stopped
+    let mut consumed = from + 1;
+    let mut i = from + 1;
+    while i < k {
+        let t = &inf[i];
+        if stage == 1 && t.is_script() {
+            m.script = Some(t.title());
+            stage = 2;
+            consumed = i + 1;
+        } else if stage <= 2 && t.is_region() {
+            m.region = Some(t.upper());
+            stage = 3;
+            consumed = i + 1;
+        } else if stage <= 3 && t.is_variant() {
+            if m.nvariants < VMAX {
+                insert_sorted_unique(&mut m.variants, &mut m.nvariants, t.lower());
+            }
+            stage = 3;
+            consumed = i + 1;
+        } else {
+            stage = 4;
         }
         i += 1;
     }
-    if i < k && !allow_ext {
-        return (Err(LangIdErr::InvalidSubtag), i);
+    if consumed < k && !allow_ext {
+        return (Err(LangIdErr::InvalidSubtag), consumed);
     }
-    (Ok(m), i)
+    (Ok(m), consumed)
 }
 
 /// canonical serialisation of a language identifier model into `out`, returns length
